@@ -1,5 +1,7 @@
 // Unit postcommit — property C04: the files named in INITIAL (lines left out of earlier commits) are always among the
-// files post_commit re-examines, so their carried-over lines go through the three-way split of unit split again.
+// files post_commit hands to the three-way split (`pathspecs`), so their carried-over lines go through unit split again.
+// The region covers the whole construction of `pathspecs` and is anchored on CODE lines at both ends (an earlier version
+// started at a comment line; an independently seeded change that rewrote that comment lost the anchor).
 use vstd::prelude::*;
 use std::collections::{HashMap, HashSet};
 use vstd::std_specs::iter::IteratorSpec;
@@ -15,8 +17,9 @@ mod ax {
 }
 broadcast use {vstd::std_specs::hash::group_hash_axioms, ax::axiom_string_obeys_key_model};
 
-/// stand-in: the verified text never inspects prompt records
+/// stand-ins: the verified text never inspects prompt records or checkpoints
 pub struct PromptRecord { pub _opaque: () }
+pub struct Checkpoint { pub _opaque: () }
 //#item file=src/authorship/attribution_tracker.rs kind=struct name=LineAttribution
 pub struct LineAttribution {
     pub start_line: u32,
@@ -34,32 +37,48 @@ pub struct InitialAttributions {
 
 /// the files the INITIAL file of the parent's working log names (reading it is outside the verifier's reach)
 pub uninterp spec fn initial_files() -> Set<String>;
+/// the files the checkpoint scan selects (which entries need post-processing is outside the verifier's reach)
+pub uninterp spec fn scanned_files(log: Seq<Checkpoint>) -> Set<String>;
 /// O1 stub for `working_log.read_initial_attributions()`
 #[verifier::external_body]
 fn opq_read_initial() -> (r: InitialAttributions)
     ensures r.files@.dom() == initial_files(),
 { unimplemented!() }
+/// O1 stub for the scan loop `for checkpoint in &parent_working_log { for entry in &checkpoint.entries { if
+/// checkpoint_entry_requires_post_processing(checkpoint, entry) { pathspecs.insert(entry.file.clone()); } } }`.
+/// Assumed: its frame - it only ADDS files to the set, namely the ones it selects
+#[verifier::external_body]
+fn opq_scan_checkpoints(p: &mut HashSet<String>, log: &Vec<Checkpoint>)
+    ensures
+        forall|k: String| #[trigger] old(p)@.contains(k) ==> final(p)@.contains(k),
+        forall|k: String| #[trigger] scanned_files(log@).contains(k) ==> final(p)@.contains(k),
+{ unimplemented!() }
 
-//#item file=src/authorship/post_commit.rs kind=region name=pc_initial_pathspecs in=post_commit from="// Also include files from INITIAL attributions" to="// Split VirtualAttributions into committed" from_nth=0 to_nth=0 to_exclusive=yes opaque='[{"expr": "working_log.read_initial_attributions()", "call": "opq_read_initial()"}]'
-//@ fn region_pc_initial_pathspecs(pathspecs0: HashSet<String>) -> (r_: HashSet<String>)
+//#item file=src/authorship/post_commit.rs kind=region name=pc_initial_pathspecs in=post_commit from="let mut pathspecs: HashSet<String> = HashSet::new();" to="let (mut authorship_log, initial_attributions) = working_va" from_nth=0 to_nth=0 to_exclusive=yes opaque='[{"expr": "working_log.read_initial_attributions()", "call": "opq_read_initial()"}, {"stmt_from": "for checkpoint in &parent_working_log {", "call": "opq_scan_checkpoints(&mut pathspecs, &parent_working_log);"}]'
+//@ fn region_pc_initial_pathspecs(parent_working_log: Vec<Checkpoint>) -> (r_: HashSet<String>)
 //@     ensures
-//@         // every file that still has carried-over (INITIAL) lines is re-examined by this commit, whatever else the commit touched
+//@         // every file that still has carried-over (INITIAL) lines is handed to the split, whatever else the commit touched
 //@         forall|k: String| #[trigger] initial_files().contains(k) ==> r_@.contains(k),
 //@         // and no file selected by the checkpoint scan is dropped
-//@         forall|k: String| #[trigger] pathspecs0@.contains(k) ==> r_@.contains(k),
+//@         forall|k: String| #[trigger] scanned_files(parent_working_log@).contains(k) ==> r_@.contains(k),
 //@ {
-//@     let mut pathspecs = pathspecs0;
+    let mut pathspecs: HashSet<String> = HashSet::new();
+    opq_scan_checkpoints(&mut pathspecs, &parent_working_log);
+    //@ let ghost p1 = pathspecs@;
+
     // Also include files from INITIAL attributions (uncommitted files from previous commits)
     // These files may not have checkpoints but still need their attribution preserved
     // when they are finally committed. See issue #356.
     let initial_attributions_for_pathspecs = opq_read_initial();
     for file_path in it_0: initial_attributions_for_pathspecs.files.keys()
     //@     invariant
-    //@         forall|k: String| #[trigger] pathspecs0@.contains(k) ==> pathspecs@.contains(k),
+    //@         forall|k: String| #[trigger] p1.contains(k) ==> pathspecs@.contains(k),
     //@         forall|j: int| 0 <= j < it_0.index@ ==> pathspecs@.contains(*(#[trigger] it_0.snapshot@.remaining()[j])),
     {
         pathspecs.insert(file_path.clone());
     }
+
+    // Split VirtualAttributions into committed (authorship log) and uncommitted (INITIAL)
 //@     pathspecs
 //@ }
 //#end
